@@ -13,7 +13,8 @@ EXPLANATION = (
     "the relationship caches are rebuilt unconditionally by _rel_update, which every analysis calls before its first use of "
     "them; (R5) _pars_and_limits routes each parameter / limit key to the column whose header names it, tables are shown as "
     "'interp', _filt_lim blanks exactly the default, and phases() reports the configured per-phase value in the column of "
-    "the load's kind. Not decided: that every report 'succeeds' in the presence of library exceptions.")
+    "the load's kind; (R6) del_comp ends every path with the same outcome and the same ordered registry / graph effects as its "
+    "reference text, so re-linked childs keep their input priority order. Not decided: that every report 'succeeds' in the presence of library exceptions.")
 
 CACHE_ATTRS = ("PARENTS", "CHILDS", "TOPO")
 
@@ -33,6 +34,22 @@ def run(model, rep, tier):
     A(config_reports, model, rep, r)
     from . import c19
     A(c19.r1, model, rep)      # make_diag lists exactly the live components and links (index holes, edit history)
+    A(del_comp_reference, model, rep, r)
+
+
+def del_comp_reference(model, rep, r):
+    """R6: the deletion leaves the registries, the links and the input order of the re-linked childs exactly as the reference
+    text (sa/spec_edit.py, parsed, never run) does, path for path; conditions or collections the reference does not name are
+    not paired (analysis error, never a verdict)"""
+    from .. import refcmp
+    fn = model.own_method("System", "del_comp")
+    if fn is None:
+        raise AnalysisError("System.del_comp not found")
+    where = "%s:%d" % (model.rel("system"), fn.lineno)
+    ok, rows = refcmp.compare(model, r, fn, refcmp.spec_function("spec_edit", "del_comp"), rep, "R6", "system.System.del_comp", where, "del_comp", mod="system", closed=True)
+    if rows < 5:
+        raise AnalysisError("del_comp: only %d path pairs compared with the reference" % rows)
+    rep.instance("R6", "del_comp agrees with its reference text on every pair of paths", where, ok, "%d path pairs" % rows)
 
 
 def order_rule(model, rep):
